@@ -71,6 +71,9 @@ type Spec struct {
 	// servers and with a client key pair that does not parse can be CREATED (no transport is built), after which
 	// every Sync that has to add an endpoint fails in syncEndpoints. The model is told through failendpoints
 	// (= Sync fails on this object) — regression input for /repo ddabea4.
+	// Half: "cert" / "key": only that half of key pair Cert is in the object (the other half arrives in another
+	// update, as real deployments do). No certificate can be served from half a pair: the model sees cert = none.
+	Half          string `json:"half,omitempty"`
 	NoServers     bool `json:"noservers,omitempty"`
 	BrokenClient  bool `json:"brokenclient,omitempty"`
 	FailEndpoints bool `json:"failendpoints,omitempty"`
@@ -177,6 +180,12 @@ func mkObj(name string, sp *Spec, rv int) *proxyv1alpha1.UpstreamCluster {
 	}
 	if m, ok := servingCerts[sp.Cert]; ok {
 		o.Spec.SecureServing.CertData, o.Spec.SecureServing.KeyData = m.certPEM, m.keyPEM
+		switch sp.Half {
+		case "cert":
+			o.Spec.SecureServing.KeyData = nil
+		case "key":
+			o.Spec.SecureServing.CertData = nil
+		}
 	}
 	if m, ok := clientCAs[sp.CA]; ok {
 		o.Spec.SecureServing.ClientCAData = m.certPEM
@@ -865,6 +874,9 @@ func readable(cs Case) interface{} {
 				al = append(al, fmt.Sprintf("%q", rig.UnHex(a)))
 			}
 			t += fmt.Sprintf(" serverNames=[%s] cert=%d ca=%d bad=%v", strings.Join(al, ","), s.Spec.Cert, s.Spec.CA, s.Spec.Bad)
+			if s.Spec.Half != "" {
+				t += " only-the-" + s.Spec.Half + "-of-the-pair"
+			}
 			if s.Spec.NoServers {
 				t += " noservers"
 			}
